@@ -270,6 +270,15 @@ def check_gssvx(ev):
         E = absmat_prod(DL, DU, n, n)
     if ev.get("nrhs", 0) > 0 and "X1" in ev:
         A = dense_from_triplets(ev["A0"], n, n, cplx)
+        if fact == 3 and ev["equed"] in "RCB":
+            # FACTORED: the caller passes the equilibrated matrix; the system solved is the unscaled one
+            Rq = [tok(t) if ev["equed"] in "RB" else Fr(1) for t in ev["R"]]
+            Cq = [tok(t) if ev["equed"] in "CB" else Fr(1) for t in ev["C"]]
+            for i in range(n):
+                for j in range(n):
+                    if A[i][j] != Z:
+                        d = (Rq[j] * Cq[i]) if tr else (Rq[i] * Cq[j])
+                        A[i][j] = (A[i][j][0] / d, A[i][j][1] / d)
         trans = ev["opts"]["Trans"]
         opA = op_matrix(A, n, trans, cplx)
         X = [[val(t, cplx) for t in col] for col in ev["X1"]]
